@@ -31,7 +31,7 @@ def select(info, plan, now, older_days=None, blockmax=None):
     return set(bad), may, limit, eligible
 
 
-def check_percentage(info, verified, plan, now, older_days, blockmax=None):
+def check_percentage(info, verified, plan, now, older_days, blockmax=None, lower_bound=True):
     """violations (strings) of the percentage rules for the set of verified stripes"""
     r = select(info, plan, now, older_days, blockmax)
     bad, may, limit, eligible = r
@@ -44,6 +44,10 @@ def check_percentage(info, verified, plan, now, older_days, blockmax=None):
     nb = verified - bad
     if len(nb) > limit:
         out.append("verified %d non-bad stripes, quota is %d" % (len(nb), limit))
+    # ... and not fewer: the share asked for is honoured as long as eligible stripes are left (bad ones count in the quota)
+    want = min(limit, len(eligible) + len(bad))
+    if lower_bound and len(verified) < want:
+        out.append("verified %d stripes, the plan asks for %d (quota %d, %d eligible, %d bad)" % (len(verified), want, limit, len(eligible), len(bad)))
     if nb:
         newest = max(info[i][0] for i in nb)
         skipped_older = [i for t, i in eligible if i not in verified and t < newest]
